@@ -18,7 +18,8 @@ import (
 )
 
 type Clause struct {
-	Props []string
+	Props  []string
+	Reveal []string // opaque predicates whose definition this clause's obligations may use
 	Text  string
 	Expr  ast.Expr
 	Where string
@@ -60,6 +61,9 @@ type Contract struct {
 	Splits   []*Clause // case-split hints: each expression E yields two variants of every obligation (E / !E)
 	Ghosts   []string // universally quantified ghost parameters ("name sort")
 	FreshResult bool
+	Sequential bool   // invariant conjuncts are proved in order, each assuming the earlier ones
+	BitsDef bool      // give bits()/sbits() at symbolic positions their byte-arithmetic definition (default: range only)
+	Opaque  []string  // predicates whose definitions are hidden except in clauses marked {reveal P}
 	Uses    []*Clause // lemma instantiations assumed at entry (each must be a proved lemma/axiom instance)
 	NoTerm  string    // reason why a loop of this function has no termination measure (service loop)
 	AtCalls []*AtCall // obligations on the arguments of calls made by this function (argument flow)
@@ -124,6 +128,11 @@ type Axiom struct {
 	Expr    ast.Expr
 	Where   string
 	Lemma   bool // proved by the engine (as an obligation) rather than assumed
+	Params  []string   // lemma parameters (integers)
+	By      string     // induction variable of a lemma ("" = no induction)
+	Pats    []ast.Expr // trigger terms of a lemma (multi-pattern)
+	Index   int        // declaration order (a lemma may use earlier lemmas only)
+	Aux     bool       // auxiliary lemma: used only in the proofs of later lemmas
 	Raw     string // raw SMT-LIB text (rawaxiom)
 }
 
@@ -155,12 +164,13 @@ func newSpecLib() *SpecLib {
 	return &SpecLib{Contracts: map[string]*Contract{}, Macros: map[string]*Macro{}, UFs: map[string]*UFDecl{}, Types: map[string]*TypeSpec{}, Preds: map[string]*Pred{}}
 }
 
+var revealRe = regexp.MustCompile(`^\{reveal ([A-Za-z0-9_, ]+)\}\s*`)
 var propRe = regexp.MustCompile(`^\[([A-Za-z0-9, ]+)\]\s*`)
 
 var keywords = map[string]bool{
 	"func": true, "type": true, "requires": true, "ensures": true, "modifies": true, "invariant": true,
-	"decreases": true, "loop": true, "mode": true, "inline": true, "assume-contract": true, "pure": true,
-	"let": true, "define": true, "declare": true, "axiom": true, "lemma": true, "owned": true, "model": true,
+	"decreases": true, "loop": true, "mode": true, "inline": true, "opaque": true, "bitsdef": true, "sequential": true, "assume-contract": true, "pure": true,
+	"let": true, "define": true, "declare": true, "axiom": true, "lemma": true, "auxlemma": true, "owned": true, "model": true,
 	"global": true, "nosafety": true, "assert": true, "split": true, "guarded_by": true, "ghostparam": true,
 	"fresh-result": true, "use": true, "exports": true, "rawaxiom": true, "stamp": true, "defpred": true, "recfun": true, "arith": true, "atcall": true, "noterm": true,
 }
@@ -301,6 +311,12 @@ func mkClause(text, where string) (*Clause, error) {
 	if m := propRe.FindStringSubmatch(text); m != nil {
 		for _, p := range strings.Split(m[1], ",") {
 			c.Props = append(c.Props, strings.TrimSpace(p))
+		}
+		text = text[len(m[0]):]
+	}
+	if m := revealRe.FindStringSubmatch(text); m != nil {
+		for _, p := range strings.Split(m[1], ",") {
+			c.Reveal = append(c.Reveal, strings.TrimSpace(p))
 		}
 		text = text[len(m[0]):]
 	}
@@ -528,6 +544,16 @@ func (lib *SpecLib) loadFile(path, pkgPath string) error {
 			cur.Wrap = true
 		case "mode":
 			cur.Mode = it.rest
+		case "opaque":
+			for _, p := range strings.Split(it.rest, ",") {
+				if p = strings.TrimSpace(p); p != "" {
+					cur.Opaque = append(cur.Opaque, p)
+				}
+			}
+		case "bitsdef":
+			cur.BitsDef = true
+		case "sequential":
+			cur.Sequential = true
 		case "inline":
 			cur.Inline = true
 		case "assume-contract":
@@ -601,7 +627,41 @@ func (lib *SpecLib) loadFile(path, pkgPath string) error {
 				}
 			}
 			lib.UFs[d.Name] = d
-		case "axiom", "lemma":
+		case "lemma", "auxlemma":
+			// lemma name(p, q, s) by s [trigger; trigger]: expr
+			// (auxlemma: available only for proving later lemmas, never instantiated in function units)
+			re := regexp.MustCompile(`^(\w+)\(([\w, ]*)\)\s*(?:by\s+(\w+)\s*)?\[(.*?)\]\s*:\s*(.+)$`)
+			m := re.FindStringSubmatch(it.rest)
+			if m == nil {
+				return fmt.Errorf("%s: bad lemma (want: name(params) by v [triggers]: expr)", it.where)
+			}
+			e, err := parseExpr(m[5], it.where)
+			if err != nil {
+				return err
+			}
+			ax := &Axiom{Name: m[1], Text: m[5], Expr: e, Where: it.where, Lemma: true, Aux: it.kw == "auxlemma", By: m[3], Index: len(lib.Axioms)}
+			for _, t := range strings.Split(m[2], ",") {
+				if t = strings.TrimSpace(t); t != "" {
+					ax.Params = append(ax.Params, t)
+				}
+			}
+			for _, t := range splitTop(m[4], ';') {
+				if t = strings.TrimSpace(t); t != "" {
+					pe, err := parseExpr(t, it.where)
+					if err != nil {
+						return err
+					}
+					ax.Pats = append(ax.Pats, pe)
+					for _, fm := range regexp.MustCompile(`(\w+)\(`).FindAllStringSubmatch(t, -1) {
+						ax.Trigger = append(ax.Trigger, fm[1])
+					}
+				}
+			}
+			if len(ax.Pats) == 0 {
+				return fmt.Errorf("%s: lemma %s needs a trigger", it.where, ax.Name)
+			}
+			lib.Axioms = append(lib.Axioms, ax)
+		case "axiom":
 			// axiom name [f,g]: expr
 			re := regexp.MustCompile(`^(\w+)\s*\[([\w, ]*)\]\s*:\s*(.+)$`)
 			m := re.FindStringSubmatch(it.rest)
@@ -612,7 +672,7 @@ func (lib *SpecLib) loadFile(path, pkgPath string) error {
 			if err != nil {
 				return err
 			}
-			ax := &Axiom{Name: m[1], Text: m[3], Expr: e, Where: it.where, Lemma: it.kw == "lemma"}
+			ax := &Axiom{Name: m[1], Text: m[3], Expr: e, Where: it.where}
 			for _, t := range strings.Split(m[2], ",") {
 				t = strings.TrimSpace(t)
 				if t != "" {
